@@ -147,7 +147,34 @@ def check_structural(ctx, case):
     return any(any(r) for r in mat)
 
 
+def cumulated_ring_atom(mol):
+    """a ring atom that carries two double bonds (strained cyclic
+    cumulene): the greedy pair matching of the routine cannot serve it when
+    the two such atoms of a ring are not adjacent"""
+    from rdkit import Chem
+    for a in mol.GetAtoms():
+        if a.IsInRing() and sum(
+                1 for b in a.GetBonds()
+                if b.GetBondType() == Chem.BondType.DOUBLE) >= 2:
+            return True
+    return False
+
+
 def check_chemical(ctx, case):
+    try:
+        return _check_chemical(ctx, case)
+    except Violation as v:
+        from rdkit import Chem
+        mol = rdgen.mol_from_smiles(case["smiles"])
+        if mol is not None and "/chemical/" in v.sig:
+            km = Chem.Mol(mol)
+            Chem.Kekulize(km, clearAromaticFlags=True)
+            if cumulated_ring_atom(km):
+                raise Violation(v.sig + "/cyclic-cumulene", v.msg)
+        raise
+
+
+def _check_chemical(ctx, case):
     from rdkit import Chem
     mol = rdgen.mol_from_smiles(case["smiles"])
     if mol is None:
